@@ -66,6 +66,10 @@ func (fv *FV) valOf(st *State, v ssa.Value) Val {
 	case *ssa.Function:
 		return fv.funcVal(x)
 	case *ssa.Global:
+		if who, mut := fv.eng.mutableGlobals[x]; mut && fv.eng.inScope(st.fr.fn) {
+			// C13: the function depends on package-level state that the library itself mutates
+			fv.addObl(st, "ensures", fmt.Sprintf("noglobal:%s@%s", x.Name(), st.fr.fn.Name()), "false", "package-level variable "+x.String()+" is written by "+who+" and used here: instances share mutable state", []string{"C13"})
+		}
 		n := "glob_" + mangle(x.Pkg.Pkg.Name()+"_"+x.Name())
 		if !fv.declS[n] {
 			fv.declare(n, "Int")
@@ -572,6 +576,12 @@ func (fv *FV) newRef(st *State, prefix string) string {
 	r := fv.fresh(prefix, "Int")
 	st.assume(fmt.Sprintf("(> %s %s)", r, st.alloc))
 	st.alloc = r
+	if _, ok := fv.u.db.GGlobal["relArr"]; ok {
+		// a freshly allocated array has not been handed to the pool
+		if g, ok := fv.lookupId("relArr", &Env{fv: fv, vars: map[string]Val{}, st: st}); ok {
+			st.assume(fmt.Sprintf("(not (select %s %s))", g.T, r))
+		}
+	}
 	return r
 }
 
@@ -790,6 +800,9 @@ func (fv *FV) execInstr(st *State, in ssa.Instruction, rest func(*State)) bool {
 			fv.unsupportedf("unop %s", x.Op)
 		}
 	case *ssa.Store:
+		if g := rootGlobal(x.Addr); g != nil {
+			fv.addObl(st, "ensures", fmt.Sprintf("noglobal:store:%s@%s", g.Name(), st.fr.fn.Name()), "false", "store to package-level variable "+g.String(), []string{"C13"})
+		}
 		p := fv.valOf(st, x.Addr)
 		v := fv.asTerm(st, fv.valOf(st, x.Val))
 		l := fv.ptrLoc(p)
